@@ -589,3 +589,102 @@ UNITS += [
          assumptions=["lower_bound_impl by its c18_lower_bound_d contract (two witness instances)", "grid strictly increasing and NaN-free (precondition, used at one instance)"],
          note="NonuniformGrid<double>::find: for any grid length and any in-range value returns i with grid[i] <= value < grid[i+1] and i+1 < size; its own asserts and the decrement are safe"),
 ]
+
+
+# ---------------------------------------------------------------------------
+# LinearInterpolator: exact at the left knot, exact on a flat bin
+# ---------------------------------------------------------------------------
+INTERP = "src/corecel/grid/Interpolator.hh"
+TRAITS = "src/corecel/grid/detail/InterpolatorTraits.hh"
+
+
+def linear_traits(ctx):
+    """The five one-line functions of InterpolatorTraits<Interp::linear, T>, turned into macros mechanically."""
+    import re
+    from vkit.extract import ExtractionDrift
+    text = ctx.read(TRAITS)
+    m = re.search(r"struct InterpolatorTraits<Interp::linear, T>\s*\{(.*?)\n\};", text, flags=re.S)
+    if not m:
+        raise ExtractionDrift("InterpolatorTraits<Interp::linear, T> not found")
+    out = ""
+    found = set()
+    for f in re.finditer(r"static CELER_CONSTEXPR_FUNCTION (?:T|bool) (\w+)\(([^()]*)\)\s*\{\s*return ([^;]*);\s*\}", m.group(1)):
+        name, params, expr = f.group(1), [p.split()[-1] for p in f.group(2).split(",") if p.strip() and len(p.split()) > 1], f.group(3)
+        for p in params:
+            expr = re.sub(r"\b%s\b" % p, "(%s)" % p, expr)
+        nparam = len([p for p in f.group(2).split(",") if p.strip()])
+        args = params + ["unused_"] * (nparam - len(params))
+        out += "#define TRAITS_%s(%s) (%s)\n" % (name, ", ".join(args), expr)
+        found.add(name)
+    if found != {"transform", "negate_transformed", "add_transformed", "transform_inv", "valid_domain"}:
+        raise ExtractionDrift("linear interpolator traits changed: %r" % sorted(found))
+    return out
+
+
+LI_MODEL = """
+typedef struct { real_type v[2]; } Point;                                      /* Array<T, 2> */
+typedef struct { real_type intercept_, slope_, offset_; } Interpolator;        /* members of the current text; a member that a changed text no longer uses stays unused */
+double __CPROVER_uninterpreted_fma(double, double, double);
+double __CPROVER_uninterpreted_fdiv(double, double);
+#define FINV(x) (!__CPROVER_isnand(x) && !__CPROVER_isinfd(x))
+/* IEEE facts about the two operations whose general value is not decided here (assumed): fma(a, b, c) == c when a or b is zero and the other finite; 0 / b == 0 for b != 0;
+   neither operation yields NaN on finite operands (non-zero divisor) */
+static real_type FMA(real_type a, real_type b, real_type c)
+{
+    if ((a == 0 && FINV(b)) || (b == 0 && FINV(a))) return c;
+    real_type r = __CPROVER_uninterpreted_fma(a, b, c);
+    __CPROVER_assume(!(FINV(a) && FINV(b) && FINV(c)) || !__CPROVER_isnand(r));
+    return r;
+}
+static real_type FDIV(real_type a, real_type b)
+{
+    if (a == 0 && b != 0 && !__CPROVER_isnand(b)) return 0.0;
+    real_type r = __CPROVER_uninterpreted_fdiv(a, b);
+    __CPROVER_assume(!(FINV(a) && FINV(b) && b != 0) || !__CPROVER_isnand(r));
+    return r;
+}
+"""
+LI_RULES = [
+    Rule(r"(?:XTraits_t|YTraits_t)::(\w+)\(", r"TRAITS_\1(", "+", note="traits of Interp::linear (extracted as macros)"),
+    Rule(r"\b(left|right)\[(X|Y)\]", r"\1.v[\2]", "*", note="Array::operator[]"),
+    Rule(r"std::isnan\(", "__CPROVER_isnand(", "*", note="std::isnan"),
+    Rule(r"std::fma\(", "FMA(", "*", note="std::fma -> uninterpreted with the zero-factor lemma"),
+    Rule(r"\(([^;]*?)\s*/\s*(TRAITS_add_transformed\([^;]*\))\);", r"FDIV(\1, \2);", (0, 1), note="slope quotient -> uninterpreted with the zero-numerator lemma"),
+    Rule(r"(?<![\w.>])(intercept_|slope_|offset_)\b", r"self->\1", "*", note="data members"),
+]
+
+
+def build_interp_linear(ctx):
+    ct = ctx.func(INTERP, r"^CELER_FUNCTION Interpolator<XI, YI, T>::Interpolator\(Point left, Point right\)", LI_RULES, name="Interpolator<linear,linear>::Interpolator")
+    op = ctx.func(INTERP, r"^Interpolator<XI, YI, T>::operator\(\)\(real_type x\) const -> real_type", LI_RULES, name="Interpolator<linear,linear>::operator()")
+    return (HDR + LI_MODEL + linear_traits(ctx) + "static void LI_ctor(Interpolator* self, Point left, Point right)\n{" + ct.body + "}\n"
+            "static real_type LI_call(Interpolator const* self, real_type x)\n{" + op.body + "}\n" + """
+real_type LI_eval(real_type xl, real_type yl, real_type xr, real_type yr, real_type x)
+__CPROVER_requires(FINV(xl) && FINV(xr) && FINV(yl) && FINV(yr) && FINV(x) && xl < xr && !__CPROVER_isinfd(-xl + xr) && !__CPROVER_isinfd(-xl + x) && !__CPROVER_isinfd(-yl + yr))      /* constructor EXPECT + finite table */
+/* the bin is not so steep that its slope overflows */
+__CPROVER_requires(!__CPROVER_isinfd(__CPROVER_uninterpreted_fdiv(-yl + yr, -xl + xr)))
+__CPROVER_assigns()
+/* the interpolant reproduces the table EXACTLY at the left knot of the bin (the knot every lookup lands on for a grid value) */
+__CPROVER_ensures(x == xl ==> __CPROVER_return_value == yl)
+/* and a flat bin is reproduced exactly everywhere inside it */
+__CPROVER_ensures(yl == yr ==> __CPROVER_return_value == yl)
+{
+    Interpolator it; Point l = {{xl, yl}}, r = {{xr, yr}};
+    LI_ctor(&it, l, r);          /* LinearInterpolator<real_type> interp{{xl, yl}, {xr, yr}}; */
+    return LI_call(&it, x);      /* interp(x) */
+}
+void h_li(void)
+{
+    real_type a, b, c, d, x;
+    LI_eval(a, b, c, d, x);
+    VERIF_CANARY();
+}
+""")
+
+
+UNITS += [
+    Unit("c18_interp_linear", build_interp_linear, "h_li", enforce="LI_eval", timeout=600, backend=["sat", "kissat", "cvc5", "z3"],
+         must_have=[r"LI_eval.postcondition", r"celer_expect", r"celer_ensure"], checks=["--bounds-check", "--pointer-check"],
+         assumptions=["fma(a,b,c) == c when a factor is zero and 0/b == 0 (IEEE facts, assumed); the general value of fma and of the slope quotient is uninterpreted: interpolation accuracy inside a bin is NOT decided"],
+         note="LinearInterpolator (constructor + operator(), real extracted bodies): exact value at the left knot of the bin and exact reproduction of a flat bin, for all finite tables; the constructor's EXPECT/ENSURE hold"),
+]
